@@ -164,6 +164,8 @@ func annVal(t string) interface{} {
 		return obj{"-x": "v"}
 	case "toolarge":
 		return obj{"k": strings.Repeat("v", 256*1024+1)}
+	case "sumlarge":
+		return obj{"k1": strings.Repeat("v", 100*1024), "k2": strings.Repeat("v", 100*1024), "k3": strings.Repeat("v", 100*1024)}
 	case "nonstring":
 		return obj{"k": 5}
 	case "list":
@@ -173,7 +175,7 @@ func annVal(t string) interface{} {
 }
 
 func envTokVal(t string) interface{} {
-	m := map[string]interface{}{"ok": "A=b", "emptyval": "A=", "twoeq": "A=b=c", "multiline": "CERT=line1\nline2", "unicode": "\u00c4=\u00e9\u2603", "spaces": "A B= c ", "noeq": "A", "noname": "=b", "empty": "", "null": nil, "number": 5}
+	m := map[string]interface{}{"ok": "A=b", "emptyval": "A=", "twoeq": "A=b=c", "multiline": "CERT=line1\nline2", "unicode": "\u00c4=\u00e9\u2603", "spaces": "A B= c ", "ctl": "A=x\u007fy\u0085z", "noeq": "A", "noname": "=b", "empty": "", "null": nil, "number": 5}
 	return m[t]
 }
 
@@ -208,6 +210,8 @@ func nodeVal(t string) interface{} {
 		return obj{"path": ""}
 	case "badtype":
 		return obj{"path": p, "type": "x"}
+	case "multitype":
+		return obj{"path": p, "type": "bc"}
 	case "badperm":
 		return obj{"path": p, "permissions": "rx"}
 	case "strmajor":
@@ -419,6 +423,7 @@ func oracleDocRow(idx int, line []byte, seed int64, col *collector) {
 	defer os.RemoveAll(root)
 	tree := renderDoc(row.Doc, (seed+int64(idx))%2 == 0)
 	jb, err := json.Marshal(tree)
+	jb = escapeCtl(jb)
 	if err != nil {
 		col.add(Mismatch{Case: idx, Step: -1, Props: []string{"TOOL"}, What: "render", Note: err.Error()})
 		return
